@@ -245,6 +245,27 @@ def oracle(ctx):
             if not ok:
                 ctx.fail(f"split/{size}/{s[:40]!r}", f"split_mtext_string({s[:80]!r}, {size}) -> {chunks[:5]!r}",
                          {"op": "split", "text": s, "size": size})
+    # the decoders are pure: a caller that edits a returned line list (MText.all_columns_plain_text does)
+    # must not influence later calls
+    n = 0
+    for kind, s in strings(ctx):
+        n += 1
+        if n % 5 and kind not in ("tmpl",):
+            continue
+        ctx.count("O4 purity", s, "\\P" in s)
+        for name, fn in (("fast_plain_mtext", T.fast_plain_mtext), ("plain_mtext", T.plain_mtext)):
+            try:
+                first = fn(s, split=True)
+                expect = list(first)
+                first.append("<edited by caller>")
+                if first:
+                    first[0] = "<edited>"
+                second = fn(s, split=True)
+            except Exception:  # noqa  (totality is checked above)
+                continue
+            if second != expect:
+                ctx.fail(f"impure/{name}/{s[:30]!r}", f"{name}({s[:60]!r}, split=True) returns {second!r} after the caller edited the earlier result {expect!r}",
+                         {"op": "purity", "fn": name, "text": s})
     # fast == slow on the sub-grammar
     for s in subgrammar_docs(ctx):
         ctx.count("O2 fast==slow", s, True)
